@@ -54,6 +54,13 @@ Fixpoint true_times (obs : list N) (bs : list bool) : list N :=
   | _, _ => []
   end.
 
+(* the k-th refresh happens at or after the k-th mark *)
+Fixpoint at_or_after (marks times : list N) {struct times} : Prop :=
+  match times with
+  | [] => True
+  | t :: ts => match marks with m :: ms => m <= t /\ at_or_after ms ts | [] => False end
+  end.
+
 (* ---------------------------------------------------------------- abstract record state *)
 
 (* What the property lets one know about a cached record: when it was received, with which
@@ -146,13 +153,20 @@ Definition chk_C11_life (created ttl : N) (ops : list lop) (outs : list lout) : 
 
 (* ---------------------------------------------------------------- C10 at record level *)
 
-(* suppressed_by_answer, as the property states it: same record and listed TTL above half *)
+(* "that same record (owner, type, class, RDATA)": the cache-flush bit is not part of it;
+   address records are additionally tied to the interface they belong to *)
+Definition same_record (a b : ident) : bool :=
+  beq (i_name a) (i_name b) && (i_type a =? i_type b) && (i_class a =? i_class b)
+  && beq_rdata (i_data a) (i_data b)
+  && (if is_addr_data (i_data a) then i_if a =? i_if b else true).
+
+(* suppression as the property states it: same record and listed TTL above half *)
 Definition suppress_spec (mine : ident) (mine_ttl : N) (theirs : ident) (theirs_ttl : N) : bool :=
-  matches mine theirs && (mine_ttl <? 2 * theirs_ttl).
+  same_record mine theirs && (mine_ttl <? 2 * theirs_ttl).
 
 (* monitor of a `rel` observation (matches, rrdata_match, suppressed_by_answer) *)
-Definition chk_C10_rel (mine_ttl theirs_ttl : N) (m r s : bool) : bool :=
-  Bool.eqb s (m && (mine_ttl <? 2 * theirs_ttl)) && (implb m r).
+Definition chk_C10_rel (mine : ident) (mine_ttl : N) (theirs : ident) (theirs_ttl : N) (m r s : bool) : bool :=
+  Bool.eqb s (suppress_spec mine mine_ttl theirs theirs_ttl) && (implb m r).
 
 (* remaining TTL written into a known answer, as the property states it *)
 Definition ka_ttl_spec (ttl created now : N) : N := ttl - (now - created) / 1000.
